@@ -883,44 +883,66 @@ class Parser(object):
                 raise ParserError(message, self.line, self.filename)
         return tags
 
-    def parse_step(self, line):
+    def _select_step_keyword(self, line):
+        """Select the step keyword that this line starts with (if any).
+
+        Some languages have step keywords that are a prefix of another
+        step keyword, like "Lè " (when) and "Lè sa a " (then) in Creole.
+        Therefore, the longest matching keyword is selected
+        (preferring a keyword that matches with the same upper/lower-case).
+
+        :return: Tuple (step_type, keyword) if found. None, otherwise.
+        """
+        best_match = None
+        best_rank = None
         for step_type in ("given", "when", "then", "and", "but"):
             for kw in self.keywords[step_type]:
                 # try to match the keyword; also attempt a purely lowercase
                 # match if that'll work
-                if not (line.startswith(kw) or
-                        line.lower().startswith(kw.lower())):
+                same_case = line.startswith(kw)
+                if not (same_case or line.lower().startswith(kw.lower())):
                     # -- CASE: Line does not start w/ a step-keyword.
                     continue
+                rank = (len(kw), same_case)
+                if best_rank is None or rank > best_rank:
+                    best_match = (step_type, kw)
+                    best_rank = rank
+        return best_match
 
-                # -- HINT: Trailing SPACE is used for most keywords.
-                # BUT: Keywords in some languages (like Chinese, Japanese, ...)
-                #      do not need a whitespace as word separator.
-                step_text_after_keyword = line[len(kw):].strip()
-                if kw.startswith("*") and self.last_step_type:
-                    # -- CASE: Generic steps and Given/When/Then steps are mixed.
-                    # HINT: Inherit step type from last step.
-                    step_type = self.last_step_type
-                elif step_type in ("and", "but"):
-                    if not self.last_step_type:
-                        # -- BEST-EFFORT: Try to use last background.step.
-                        self.last_step_type = self._select_last_background_step_type()
-                        if not self.last_step_type:
-                            msg = u"{step_type}-STEP REQUIRES: An previous Given/When/Then step."
-                            raise ParserError(msg.format(step_type=step_type.upper()),
-                                              self.line, self.filename)
+    def parse_step(self, line):
+        selected = self._select_step_keyword(line)
+        if selected is None:
+            # -- CASE: Line does not start w/ a step-keyword.
+            return None
 
-                    assert self.last_step_type is not None
-                    step_type = self.last_step_type
-                    assert step_type is not None
-                else:
-                    self.last_step_type = step_type
+        step_type, kw = selected
+        # -- HINT: Trailing SPACE is used for most keywords.
+        # BUT: Keywords in some languages (like Chinese, Japanese, ...)
+        #      do not need a whitespace as word separator.
+        step_text_after_keyword = line[len(kw):].strip()
+        if kw.startswith("*") and self.last_step_type:
+            # -- CASE: Generic steps and Given/When/Then steps are mixed.
+            # HINT: Inherit step type from last step.
+            step_type = self.last_step_type
+        elif step_type in ("and", "but"):
+            if not self.last_step_type:
+                # -- BEST-EFFORT: Try to use last background.step.
+                self.last_step_type = self._select_last_background_step_type()
+                if not self.last_step_type:
+                    msg = u"{step_type}-STEP REQUIRES: An previous Given/When/Then step."
+                    raise ParserError(msg.format(step_type=step_type.upper()),
+                                      self.line, self.filename)
 
-                keyword = kw.rstrip()  # HINT: Strip optional trailing SPACE.
-                step = model.Step(self.filename, self.line,
-                                  keyword, step_type, step_text_after_keyword)
-                return step
-        return None
+            assert self.last_step_type is not None
+            step_type = self.last_step_type
+            assert step_type is not None
+        else:
+            self.last_step_type = step_type
+
+        keyword = kw.rstrip()  # HINT: Strip optional trailing SPACE.
+        step = model.Step(self.filename, self.line,
+                          keyword, step_type, step_text_after_keyword)
+        return step
 
     def _select_last_background_step_type(self):
         # -- CASES:
